@@ -36,7 +36,7 @@ inductive Op (τ : Type)
   | add | sub | mul | div | mod | negate | inc | dec
   | not | boolAnd | boolOr
   | numEq | numNe | equal | notEqual | lt | le | gt | ge
-  deriving Repr
+  deriving Repr, DecidableEq
 
 /-- Element.BigInt(): Integer as is, Boolean as 0/1, Null is an error. -/
 def Val.toInt? : Val → Option Int
@@ -75,6 +75,7 @@ structure Frame where
   retPc : Nat
   locals : List Val
   args : List Val
+  inited : Bool := false     -- the caller's INITSLOT flag, restored by RET
   deriving Repr
 
 /-- machine state; `pc` is an index (assembly machine) or a byte offset (byte machine).
@@ -190,11 +191,11 @@ def stepOp {τ : Type} (resolve : τ → Option Nat) (next : Nat) (op : Op τ) (
       -- vm.go checkInvocationStackSize: at most 1024 contexts
       if s.frames.length + 1 ≥ 1024 then .fault else
       .running { pc := p, stack := s.stack, locals := [], args := [], inited := false,
-                 frames := { retPc := next, locals := s.locals, args := s.args } :: s.frames }
+                 frames := { retPc := next, locals := s.locals, args := s.args, inited := s.inited } :: s.frames }
     | none => .fault
   | .ret => match s.frames with
     | [] => .halt s.stack
-    | f :: fs => .running { pc := f.retPc, stack := s.stack, locals := f.locals, args := f.args, frames := fs, inited := true }
+    | f :: fs => .running { pc := f.retPc, stack := s.stack, locals := f.locals, args := f.args, frames := fs, inited := f.inited }
   | .initSlot l a =>
     if s.inited || (l == 0 && a == 0) || s.stack.length < a then .fault else
     .running { s with pc := next, stack := s.stack.drop a, locals := List.replicate l .null,
